@@ -173,4 +173,12 @@ PROPS = {
         need_events=["orderings", "channels_checked", "client_watchdog_scenarios"],
         assumptions=TRUST + ["'eventually closed' is restated as 'closed at quiescence of the bubble'"],
     ),
+    "C15": dict(
+        level="fault_enumeration",
+        rule="Server.Serve over a scripted in-memory listener inside synctest bubbles: K in {2,3} connections x 3 numbered requests with one fault at every (connection, position 0..3) x {handler panic, undecodable message, disconnect on a message boundary, disconnect inside a message}; 1..4 temporary Accept errors in a row at every position of the accept sequence, alone and combined with a fault; then random scenarios with K up to 5, up to two faults and accept errors. A connection is opened after the faults. Oracle at quiescence (virtual time absorbs the accept back-off): every request on a healthy connection and every request before the fault on a faulty one is answered (matched by hop-by-hop id), faulty transports are closed and healthy ones are not, one error report is readable iff undecodable input occurred, the post-fault connection is accepted and served, Serve has not returned, 'panic serving' is logged iff a handler panic was scripted. distinct_nontrivial counts distinct (K, fault kind, accept errors) classes.",
+        runs=dict(quick=[race("TestC15", 8)], thorough=[race("TestC15", 16, 6000)]),
+        floor=dict(quick=600, thorough=10000),
+        need_events=["scenarios", "faults_injected", "answers_matched"],
+        assumptions=TRUST,
+    ),
 }
